@@ -205,7 +205,62 @@ def stage2(rep, harness, driver, np_t, ge_t, accepted, stats):
     return mcmds, mres
 
 
-def correspondence(rep, rng, tier, harness, driver, accepted):
+def stage3(rep, driver, np_t, ge_t, cases, res, stats):
+    """parser model: lex + parse_expr_toks vs Expr::from_str on EVERY expression text (accepted and rejected);
+       token printer: lex(show_expr e) = print_toks e and parse_expr_toks(print_toks e) = e on every accepted AST"""
+    idx = [i for i, c in enumerate(cases) if c["kind"] == "expr" and ("accepted" in res[i])]
+    mcmds = [[Sym("c05_parse_expr"), Str(cases[i]["text"])] for i in idx]
+    mres = fw.run_model(driver, mcmds)
+    st = {"texts": len(idx), "both_accept": 0, "both_reject": 0, "model_lexerr": 0, "mismatch": 0,
+          "toks_checked": 0, "toks_mismatch": 0}
+    for i, m in zip(idx, mres):
+        c, r = cases[i], res[i]
+        if r["accepted"]:
+            want = sx.parse(r["ast"])
+            ok = isinstance(m, list) and len(m) == 2 and m[0] == "ok" and m[1] == want
+            if ok:
+                st["both_accept"] += 1
+        else:
+            ok = m in ("reject", "lexerr")
+            if ok:
+                st["both_reject"] += 1
+                if m == "lexerr":
+                    st["model_lexerr"] += 1
+        if not ok:
+            st["mismatch"] += 1
+            if st["mismatch"] <= 8:
+                rep.violation({"property": "C05", "kind": "parser: model and implementation differ",
+                               "model_function": "Lexer.lex_text + Parse.parse_expr_toks", "rust_entry_point": "parser::parse_expr (Expr::from_str)",
+                               "input": {"kind": "expr", "text": c["text"]}, "stream": c["stream"],
+                               "rust": {"accepted": r["accepted"], "ast": r.get("ast"), "error": r.get("error")},
+                               "model": sx.dump(m) if not isinstance(m, str) else str(m),
+                               "theorem_or_correspondence": "c05_expr_roundtrip_partial transfers to the code only through this correspondence"},
+                              no_failing_input=True)
+    # token printer
+    acc = [i for i in idx if res[i]["accepted"]]
+    tcmds = []
+    for i in acc:
+        ast = sx.parse(res[i]["ast"])
+        cps = set()
+        code_points(ast, cps)
+        a, b = preds(np_t, ge_t, cps)
+        tcmds.append([Sym("c05_toks_check"), a, b, ast])
+    tres = fw.run_model(driver, tcmds)
+    for i, cmd, m in zip(acc, tcmds, tres):
+        st["toks_checked"] += 1
+        ok = isinstance(m, list) and len(m) == 2 and m[0] == "true" and isinstance(m[1], list) and m[1][0] == "ok" and m[1][1] == cmd[3]
+        if not ok:
+            st["toks_mismatch"] += 1
+            if st["toks_mismatch"] <= 5:
+                rep.violation({"property": "C05", "kind": "token printer: lex(show_expr e) <> print_toks e, or parse_expr_toks(print_toks e) <> e in the model",
+                               "input": {"kind": "expr", "text": cases[i]["text"]}, "rust_ast": res[i]["ast"], "model": sx.dump(m),
+                               "theorem_or_correspondence": "c05_expr_roundtrip_partial / c05_lex_render (executable instance)"},
+                              no_failing_input=True)
+    stats["parser_stage"] = st
+    return mcmds + tcmds, mres + tres
+
+
+def correspondence(rep, rng, tier, harness, driver, accepted, cases=None, res=None):
     table = fw.run_rust(harness, [{"cmd": "c05_escape_table"}])[0]
     if "np" not in table:
         raise fw.InfraError("c05_escape_table failed: %r" % (table,))
@@ -213,7 +268,9 @@ def correspondence(rep, rng, tier, harness, driver, accepted):
     stats = {"escape_table": {"np_ranges": len(table["np"]), "ge_ranges": len(table["ge"])}}
     c1, r1 = stage1(rep, rng, tier, harness, driver, np_t, ge_t, stats)
     c2, r2 = stage2(rep, harness, driver, np_t, ge_t, accepted, stats)
-    stats["model_cases"] = len(c1) + len(c2)
-    xs = c1[:20] + c2[:20]
-    nx = fw.coq_crosscheck(xs, r1[:20] + r2[:20], TAG)
+    c3, r3 = stage3(rep, driver, np_t, ge_t, cases or [], res or [], stats)
+    stats["model_cases"] = len(c1) + len(c2) + len(c3)
+    pick = list(range(0, len(c3), max(1, len(c3) // 20)))[:20]
+    xs = c1[:15] + c2[:15] + [c3[i] for i in pick]
+    nx = fw.coq_crosscheck(xs, r1[:15] + r2[:15] + [r3[i] for i in pick], TAG)
     return stats, nx
